@@ -53,6 +53,10 @@ def mixed(rng):
 
 # Snippets that make every registered syntax rule look at something (C13/C12/C20).
 RULE_TRIGGERS = [
+    # a global/nonlocal name in the header of a with statement with several items; a BOM followed by a continuation line
+    'def f():\n    global lock\n    with lock, open(p) as fh:\n        lock = None\n', 'def f():\n    x = 1\n    def g():\n        nonlocal x\n        with a, x, b as x:\n            pass\n',
+    'def f():\n    global a, b\n    with (a, b as c, d): pass\n', 'def f():\n    global m\n    async with m, n as m: pass\n',
+    '\ufeff\\\n\tx = 1\n', '\ufeff \\\n\\\n  y = 2\n', '\ufeff\\\n    if x:\n  pass\n', '\ufeff# c\\\n\\\n\tz\n',
     # several names that are both global and nonlocal / unbound nonlocal on one line (which one is reported must not depend on the process)
     'def f():\n    global a, b\n    nonlocal a, b\n', 'def f():\n    a = b = c = 1\n    def g():\n        global a, b, c; nonlocal a, b, c\n',
     'def f():\n    def g():\n        def h():\n            nonlocal p, q, r\n', 'def f():\n    def g():\n        nonlocal u, v\n        nonlocal w, x\n    global u, v, w, x\n',
